@@ -1,0 +1,18 @@
+//go:build verif
+
+package canetti
+
+// Contracts for the deductive checker in /verif (comment-only; compiled only under the verif tag).
+
+// Randomness provenance (C07), round 1: the dealer contribution is dealt with THIS participant's reader (draw at the
+// entry state), rho is rhoLen bytes read in full from the same reader afterwards, and the opening u of the
+// round-1 commitment is a draw from the same reader; the state keeps exactly these values.
+//@ func (*Participant).Round1
+//@   property C07
+//@   uses reader
+//@   ghostvar srho V
+//@   ensures err == nil ==> drawn(box(dealerOutput), old(shk(p.prng))) && p.state.dealerFunc == dealerFunc && p.state.verificationVector == dealerOutput.VerificationMaterial()
+//@   ensures err == nil ==> bytesEq(p.state.rho, squeeze(srho, p.rhoLen)) && streamOf(srho) == streamOf(old(shk(p.prng))) && rpos(old(shk(p.prng))) <= rpos(srho) && rpos(srho) + p.rhoLen <= rpos(shk(p.prng))
+//@   ensures err == nil ==> ownDraw(box(p.state.u), old(shk(p.prng)), shk(p.prng))
+//@   ensures p.prng == old(p.prng)
+//@   ghostset before "rho := make([]byte, p.rhoLen)": srho = shk(p.prng)
